@@ -892,7 +892,7 @@ fn run_c07(ctx: &Ctx, out: &mut Out) {
     let m = Model::new(ctx.inl);
     let big = ctx.module.big_endian;
     let mut types = vec![];
-    let max_inputs = if ctx.tier_thorough { 12000 } else { 1500 };
+    let max_inputs = if ctx.tier_thorough { 3000 } else { 1500 };
     for t in &ctx.module.types {
         if t.kind == "custom" {
             continue;
@@ -909,7 +909,8 @@ fn run_c07(ctx: &Ctx, out: &mut Out) {
             _ => continue,
         };
         // values: the explored in-range values (the reference is only asked which are in range)
-        let vg = ValueGen { m: &m, budget: if ctx.tier_thorough { budget(true) } else { Budget { max_values: 60, pairs: true, nested_alts: 3, max_array_len: 20 } } };
+        // (the values travel to three other drivers as text: arrays stay below 300 elements)
+        let vg = ValueGen { m: &m, budget: if ctx.tier_thorough { Budget { max_values: 400, pairs: true, nested_alts: 4, max_array_len: 300 } } else { Budget { max_values: 60, pairs: true, nested_alts: 3, max_array_len: 20 } } };
         let vals: Vec<Val> = vg.values(t.name).ok.into_iter().filter(|v| m.encode(t.name, v).is_ok()).collect();
         let mut enc: Vec<serde_json::Value> = vec![];
         let mut own_encodings: Vec<Vec<u8>> = vec![];
